@@ -181,6 +181,116 @@ def do_capture(c):
     return r
 
 
+# ---- the real LinkLayer of the BLE stack: encryption start procedure (session key handed to phy) ----
+_STACK = {}
+
+
+def stack_env():
+    """lazy: scapy/stack imports are slow and only needed for stack cases"""
+    if _STACK:
+        return _STACK
+    from scapy.layers.bluetooth4LE import BTLE_CTRL, LL_ENC_REQ, LL_ENC_RSP, LL_START_ENC_REQ, LL_REJECT_IND
+    from whad.common.stack import alias
+    from whad.common.stack.tests import Sandbox
+    from whad.ble.stack.constants import BtVersion
+    import whad.ble.stack.llm as llm_mod
+
+    @alias('phy')
+    class Phy(Sandbox):
+        """mock PHY recording what the link layer asks the controller to do"""
+        def __init__(self, *a, **kw):
+            super().__init__(*a, **kw)
+            self.enc_calls = []
+        @property
+        def bt_version(self): return BtVersion(4, 0)
+        @property
+        def manufacturer_id(self): return 2
+        @property
+        def bt_sub_version(self): return 0x100
+        def set_encryption(self, **kwargs):
+            self.enc_calls.append(kwargs)
+            return True
+    Phy.add(llm_mod.LinkLayer)
+    queue = []
+    def fake_randint(a, b):
+        return queue.pop(0)
+    llm_mod.randint = fake_randint        # SKD / IV drawn by the stack become inputs of the case
+    _STACK.update(Phy=Phy, queue=queue, BTLE_CTRL=BTLE_CTRL, LL_ENC_REQ=LL_ENC_REQ, LL_ENC_RSP=LL_ENC_RSP,
+                  LL_START_ENC_REQ=LL_START_ENC_REQ, LL_REJECT_IND=LL_REJECT_IND)
+    return _STACK
+
+
+def ref_e(key, mat4):
+    """independent e(LTK, SKDs||SKDm) and IVm||IVs (Cryptodome called directly)"""
+    try:
+        sk, iv = ref_session(key, mat4)
+        return sk.hex(), iv.hex()
+    except Exception:  # noqa
+        return None, None
+
+
+def do_stack(c):
+    env = stack_env()
+    phy = env["Phy"]()
+    ll = phy.get_layer('ll')
+    for h in c["handles"]:
+        ll.state.connections[h] = {'l2cap': 'l2cap#0', 'version_sent': False, 'version_remote': None,
+                                   'encryption_key': None, 'authenticated': False, 'encrypted': False,
+                                   'skd': None, 'iv': None, 'rand': None, 'ediv': None, 'nb_pdu_recvd': 0}
+    out = []
+    for ev in c["events"]:
+        phy.messages.clear()
+        phy.enc_calls.clear()
+        del env["queue"][:]
+        try:
+            if ev[0] == "reg":
+                ll.state.register_encryption_key(ev[1], None if ev[2] is None else bytes.fromhex(ev[2]))
+            elif ev[0] == "start":
+                env["queue"].extend([ev[4], ev[5]])
+                ll.start_encryption(ev[1], ev[2], ev[3])
+            elif ev[0] == "encrsp":
+                phy.send('ll', BTLE_DATA() / env["BTLE_CTRL"]() / env["LL_ENC_RSP"](skds=ev[2], ivs=ev[3]),
+                         tag='control', conn_handle=ev[1])
+            elif ev[0] == "startencreq":
+                phy.send('ll', BTLE_DATA() / env["BTLE_CTRL"]() / env["LL_START_ENC_REQ"](),
+                         tag='control', conn_handle=ev[1])
+            elif ev[0] == "encreq":
+                env["queue"].extend([ev[6], ev[7]])
+                phy.send('ll', BTLE_DATA() / env["BTLE_CTRL"]() / env["LL_ENC_REQ"](rand=ev[2], ediv=ev[3], skdm=ev[4], ivm=ev[5]),
+                         tag='control', conn_handle=ev[1])
+        except Exception as e:  # noqa
+            out.append({"k": "exc", "d": type(e).__name__})
+            continue
+        calls = [{"conn": k.get("conn_handle"), "enabled": bool(k.get("enabled")), "ll_key": bytes(k["ll_key"]).hex(),
+                  "ll_iv": bytes(k["ll_iv"]).hex(), "key": bytes(k["key"]).hex(), "rand": k.get("rand"), "ediv": k.get("ediv")}
+                 for k in phy.enc_calls]
+        sent = []
+        for m in phy.messages:
+            if m.destination == 'phy' and hasattr(m.data, "haslayer"):
+                if m.data.haslayer(env["LL_REJECT_IND"]):
+                    sent.append("reject")
+                elif m.data.haslayer(env["LL_ENC_REQ"]):
+                    q = m.data[env["LL_ENC_REQ"]]
+                    sent.append(["enc_req", q.rand, q.ediv, q.skdm, q.ivm])
+                elif m.data.haslayer(env["LL_ENC_RSP"]):
+                    q = m.data[env["LL_ENC_RSP"]]
+                    sent.append(["enc_rsp", q.skds, q.ivs])
+        if len(calls) == 1:
+            out.append({"k": "setenc", "call": calls[0], "sent": sent})
+        elif calls:
+            out.append({"k": "multi", "calls": calls, "sent": sent})
+        elif "reject" in sent:
+            out.append({"k": "reject", "sent": sent})
+        else:
+            out.append({"k": "none", "sent": sent})
+    # independent expectation for each procedure named by the case
+    exp = []
+    for p in c.get("procs", []):
+        k, iv = ref_e(bytes.fromhex(p["key"]), [p["skdm"], p["ivm"], p["skds"], p["ivs"]])
+        exp.append({"ll_key": k, "ll_iv": iv})
+    return {"out": out, "ref": exp}
+
+
 def guarded(f, c):
     try:
         return f(c)
@@ -195,7 +305,8 @@ def main():
            "sweep": [guarded(do_sweep, c) for c in req.get("sweep", [])],
            "pair": [guarded(do_pair, c) for c in req.get("pair", [])],
            "link": [guarded(do_link, c) for c in req.get("link", [])],
-           "capture": [guarded(do_capture, c) for c in req.get("capture", [])]}
+           "capture": [guarded(do_capture, c) for c in req.get("capture", [])],
+           "stack": [guarded(do_stack, c) for c in req.get("stack", [])]}
     print("RESULT " + json.dumps(res))
 
 
